@@ -386,11 +386,23 @@ func stressMain(args []string) {
 	rounds := fs.Int("rounds", 20, "")
 	opsPer := fs.Int("ops", 400, "operations per goroutine and round")
 	workers := fs.Int("workers", 16, "")
+	togglesOnly := fs.Bool("toggles", false, "only the option-toggle rounds (C18)")
 	fs.Parse(args)
 	stackage.VerifHook = nil
 	bad := 0
 	for round := 0; round < *rounds; round++ {
 		stuck := false
+		for _, msg := range stressToggles(*seed*1000+int64(round), *workers, *opsPer) {
+			fmt.Printf("STRESS-FAIL round=%d seed=%d %s\n", round, *seed, msg)
+			bad++
+			stuck = stuck || strings.HasPrefix(msg, "DEADLOCK")
+		}
+		if *togglesOnly {
+			if stuck {
+				break
+			}
+			continue
+		}
 		for _, msg := range stressRound(*seed*1000+int64(round), *workers, *opsPer, round%2 == 1) {
 			fmt.Printf("STRESS-FAIL round=%d seed=%d %s\n", round, *seed, msg)
 			bad++
@@ -462,6 +474,113 @@ func stressFloor(seed int64, workers, opsPer int, fifo bool, floor int) (fails [
 	}
 	if n := s.Len(); n != floor+int(refused) {
 		fails = append(fails, fmt.Sprintf("Len %d afterwards, expected %d (floor) + %d (refused pops)", n, floor, refused))
+	}
+	return
+}
+
+// stressToggles: an option called without an argument is inverted - every time. On a mutex-enabled stack, whatever the
+// order the calls of 16 goroutines take effect in, an option inverted an even number of times stands where it stood and one
+// inverted an odd number of times stands opposite; the other options and the content are not involved.
+func stressToggles(seed int64, workers, opsPer int) (fails []string) {
+	r := rand.New(rand.NewSource(seed))
+	s := newStack(kinds(r), 0)
+	s.SetMutex()
+	s.Push(1, "a", nil, 2)
+	flags := []int{fParen, fFold, fNoPad, fLOnce, fNeg, fFwd, fNNest}
+	toggle := func(f int, alias bool) {
+		switch f {
+		case fParen:
+			if alias {
+				s.Paren()
+			} else {
+				s.SetParen()
+			}
+		case fFold:
+			if alias {
+				s.Fold()
+			} else {
+				s.SetFold()
+			}
+		case fNoPad:
+			if alias {
+				s.NoPadding()
+			} else {
+				s.SetNoPadding()
+			}
+		case fLOnce:
+			if alias {
+				s.LeadOnce()
+			} else {
+				s.SetLeadOnce()
+			}
+		case fNeg:
+			if alias {
+				s.NegativeIndices()
+			} else {
+				s.SetNegativeIndices()
+			}
+		case fFwd:
+			if alias {
+				s.ForwardIndices()
+			} else {
+				s.SetForwardIndices()
+			}
+		case fNNest:
+			if alias {
+				s.NoNesting()
+			} else {
+				s.SetNoNesting()
+			}
+		}
+	}
+	for _, f := range flags {
+		if r.Intn(2) == 0 {
+			toggle(f, false)
+		}
+	}
+	opt0 := int(stackage.VerifDump(s).Opt)
+	// two or three options only: the calls on one option must meet
+	hot := []int{flags[r.Intn(len(flags))], flags[r.Intn(len(flags))], flags[r.Intn(len(flags))]}
+	plans := make([][]int, workers)
+	want := opt0
+	for w := range plans {
+		for k := 0; k < opsPer; k++ {
+			f := hot[r.Intn(len(hot))]
+			plans[w] = append(plans[w], f)
+			want ^= f
+		}
+	}
+	var panics int32
+	var wg sync.WaitGroup
+	done := make(chan struct{})
+	for w := 0; w < workers; w++ {
+		wg.Add(1)
+		go func(w int) {
+			defer wg.Done()
+			defer func() {
+				if recover() != nil {
+					atomic.AddInt32(&panics, 1)
+				}
+			}()
+			for k, f := range plans[w] {
+				toggle(f, (k+w)%3 == 0)
+			}
+		}(w)
+	}
+	go func() { wg.Wait(); close(done) }()
+	select {
+	case <-done:
+	case <-time.After(20 * time.Second):
+		return []string{"DEADLOCK: toggle workers did not finish within 20s"}
+	}
+	if panics > 0 {
+		fails = append(fails, fmt.Sprintf("PANIC in %d workers", panics))
+	}
+	if got := int(stackage.VerifDump(s).Opt); got != want {
+		fails = append(fails, fmt.Sprintf("option word %d after %d inversions from %d goroutines (started at %d), expected %d", got, workers*opsPer, workers, opt0, want))
+	}
+	if n := s.Len(); n != 4 {
+		fails = append(fails, fmt.Sprintf("Len %d after option inversions only, expected 4", n))
 	}
 	return
 }
